@@ -1,20 +1,17 @@
 SPECIFICATION Spec
 CONSTANTS
   CircIds <- C1
-  StreamIds <- S1
-  Relays <- R2
-  MaxPath = 2
-  MaxPre = 2
-  MaxEv = 7
-  Listeners <- L2
+  StreamIds <- S0
+  Relays <- R1
+  MaxPath = 1
+  MaxPre = 0
+  MaxEv = 5
+  Listeners <- L0
   MaxUser = 4
-  Waits <- W3
-  Timed = FALSE
+  Waits <- W2
+  Timed = TRUE
 INVARIANT TypeOK
 INVARIANT CircuitsMatch
-INVARIANT StreamsMatch
-INVARIANT StreamDetails
-INVARIANT AttachBothWays
 INVARIANT NoExc
 INVARIANT WaitsOnce
 INVARIANT BuiltWaits
